@@ -140,6 +140,12 @@ Definition g_sub (a b : gv) : result gv :=
   match a, b with V (PInt x), V (PInt y) => Ok (gint (x - y)) | _, _ => Raise EType end.
 Definition g_band (a b : gv) : result gv :=
   match a, b with V (PInt x), V (PInt y) => Ok (gint (Z.land x y)) | _, _ => Raise EType end.
+(* a % b on ints: the result has the sign of the divisor, as Z.modulo *)
+Definition g_mod (a b : gv) : result gv :=
+  match a, b with
+  | V (PInt x), V (PInt y) => if y =? 0 then Raise EZeroDiv else Ok (gint (x mod y))
+  | _, _ => Raise EType
+  end.
 Definition g_lt (a b : gv) : result bool :=
   match a, b with V (PInt x), V (PInt y) => Ok (x <? y) | _, _ => Raise EType end.
 Definition g_le (a b : gv) : result bool :=
